@@ -63,6 +63,7 @@ pub fn oracle_props(oracle: &str) -> &'static [&'static str] {
         "signal_wrong" | "signal_after_observed" => &["C10"],
         "poll_blocked" | "wt_early" | "wt_late" | "wt_exit_late" | "wt_syscalls_when_known" => &["C11"],
         "detached_waited" => &["C12"],
+        "detached_mismatch" => &["C12", "C16"],
         "stage_started_after_failure" => &["C14"],
         "status_not_last" | "stderr_lines" => &["C13"],
         "wrong_candidate" | "searched_with_slash" => &["C15"],
